@@ -321,9 +321,22 @@ func mkBV(op string, a, b *Term) *Term {
 		if b.Op == "const" && b.C == 0 {
 			return a
 		}
+		if a.Op == "const" {
+			a, b = b, a
+		}
+		// (x + c1) + c2 = x + (c1 + c2)
+		if b.Op == "const" && a.Op == "bvadd" && a.Args[1].Op == "const" {
+			return mkBV("bvadd", a.Args[0], mkConst(a.Args[1].C+b.C, a.W))
+		}
+		if b.Op == "const" && a.Op == "bvsub" && a.Args[1].Op == "const" {
+			return mkBV("bvadd", a.Args[0], mkConst(b.C-a.Args[1].C, a.W))
+		}
 	case "bvsub":
 		if b.Op == "const" && b.C == 0 {
 			return a
+		}
+		if b.Op == "const" {
+			return mkBV("bvadd", a, mkConst(-b.C, a.W))
 		}
 	case "bvmul":
 		if a.Op == "const" && a.C == 1 {
